@@ -17,4 +17,4 @@ def replay(ctx, rec):
     return layout_engine.replay(ctx, 'C09', rec)
 
 
-CLAIM = {'text': "C09_layout: for every program (unique labels, align N>=1), both modes, the chunks of a successful run are exactly, in source order, the groups of the source items: code items stay code of the same line, data items are kept, constants/labels emit nothing, `align N` at output offset p becomes exactly (N - p mod N) mod N zero bytes (C09_align_item: 0<=pad<N, (p+pad) mod N = 0; C09_padding_minimal: no smaller count works), and every later pass preserves each item's size so chunk length = size() (struct.pack / sequence / shorthand length lemmas proved for all values); C09_pass_order_from_source: assemble_items equals the interpretation of the pass order regenerated from asm.assemble (Gen/PassTable.v); C09_padding_from_source: Align.resolution_size, translated from the source on every run, is what the model's alignment pass applies and equals (N - p mod N) mod N for every N >= 1; C09_size_from_source: the model's size() equals the description regenerated on every run from the size() methods of asm.py (Gen/Sizes.v). Tied by pipeline correspondence on per-item blobs + check that the real output is the concatenation of the blobs; falsifier walks the source lines against the real output independently (all N in 1..17,32,64,100,4096 at every residue).", 'note': "Trusted: as C03. The real `output += item.data` concatenation is observed (wrapper around resolve_blobs), not modelled. align 0 / negative N are outside the property's quantifier.", 'technique': 'Coq proof over the pass model (grouping relations, position-indexed alignment relation); differential correspondence; independent source-walk falsifier', 'design': '6/C09'}
+CLAIM = {'text': "AT THE TEXT LEVEL (Proofs/TextLayout.v, sub-agent): C09_text_in_order -- for a text that assembles, the chunks are the concatenation, in text order, of one group per line, each chunk carrying its line; C09_line_layout -- blank, comment, label and constant lines contribute nothing, align N contributes exactly (N - p mod N) mod N zero bytes at offset p (C09_text_align: minimal), a data line one chunk of the announced size, an instruction line chunks of 2 or 4 bytes. PASS LEVEL: C09_layout: for every program (unique labels, align N>=1), both modes, the chunks of a successful run are exactly, in source order, the groups of the source items: code items stay code of the same line, data items are kept, constants/labels emit nothing, `align N` at output offset p becomes exactly (N - p mod N) mod N zero bytes (C09_align_item: 0<=pad<N, (p+pad) mod N = 0; C09_padding_minimal: no smaller count works), and every later pass preserves each item's size so chunk length = size() (struct.pack / sequence / shorthand length lemmas proved for all values); C09_pass_order_from_source: assemble_items equals the interpretation of the pass order regenerated from asm.assemble (Gen/PassTable.v); C09_padding_from_source: Align.resolution_size, translated from the source on every run, is what the model's alignment pass applies and equals (N - p mod N) mod N for every N >= 1; C09_size_from_source: the model's size() equals the description regenerated on every run from the size() methods of asm.py (Gen/Sizes.v). Tied by pipeline correspondence on per-item blobs + check that the real output is the concatenation of the blobs; falsifier walks the source lines against the real output independently (all N in 1..17,32,64,100,4096 at every residue).", 'note': "Trusted: as C03. The real `output += item.data` concatenation is observed (wrapper around resolve_blobs), not modelled. align 0 / negative N are outside the property's quantifier.", 'technique': 'Coq proof over the pass model (grouping relations, position-indexed alignment relation); differential correspondence; independent source-walk falsifier', 'design': '6/C09'}
